@@ -220,7 +220,7 @@ fn case<S: Setup>(seed: u64, idx: usize, tier: Tier) -> Vec<CaseResult> {
     let cfg = PackCfg::random(&mut rng);
     let key = format!("{}:{}:{}", S::NAME, fnv(&serde_json::to_string(&g.prog.stmts).unwrap()), cfg.key());
     let cross = idx % tier.pick(12, 20) == 0;
-    one::<S>(&g.prog, &g.publics, &g.privates, &cfg, key, cross, idx < 4, if clean { "clean" } else { "any" })
+    one::<S>(&g.prog, &g.publics, &g.privates, &cfg, key, cross, idx < 60, if clean { "clean" } else { "any" })
 }
 
 fn replay<S: Setup>(d: &Value) -> Vec<CaseResult> {
@@ -250,7 +250,7 @@ fn main() {
     }
     let n = args.tier.pick(6000usize, 250_000usize);
     let (seed, tier) = (args.seed, args.tier);
-    let rs = run_cases(n, args.threads, |i| with_setup!(SETUP_NAMES[i % SETUP_NAMES.len()], case, seed, i, tier));
+    let rs = run_cases_isolated(n, args.threads, |i| with_setup!(SETUP_NAMES[i % SETUP_NAMES.len()], case, seed, i, tier));
     rep.add_all(rs);
     rep.finish(args.tier.pick(1000, 30_000));
 }
